@@ -144,5 +144,7 @@ def run(tier):
     hexlex.run(ck, "C02", tier, impl.loader(expand_includes=True), None)
     from .. import regexlex
     regexlex.run(ck, "C02", tier, impl.loader(expand_includes=True), None)
+    from .. import bindlex
+    bindlex.run(ck, "C02", tier, impl.loader(expand_includes=True), None)
     return ck.finish(exhaustive=False, coverage_extra={
         "slot_probes": len(sl), "walks_per_step": len(hs), "walks_long": len(hl)})
